@@ -1105,9 +1105,66 @@ func (e *ownEngine) call(fn *ssa.Function, in ssa.Instruction, s *pstate) []*pst
 
 // registerHook handles host.RegisterHook(f): every request that f completes is delegated to host.
 func (e *ownEngine) registerHook(fn *ssa.Function, in ssa.Instruction, host string, fv ssa.Value, s *pstate) {
+	// a hook built by a factory (`forwardResponseTo(raw)` returning a closure over its parameter): the closure the
+	// factory returns, with each captured parameter replaced by the argument of this call
+	var subst func(b ssa.Value) ssa.Value
+	if call, isCall := fv.(*ssa.Call); isCall {
+		g := call.Call.StaticCallee()
+		if g == nil || !isModFn(g) || g.Blocks == nil {
+			return
+		}
+		var rmc *ssa.MakeClosure
+		n := 0
+		eachInstr(g, func(_ *ssa.BasicBlock, _ int, x ssa.Instruction) {
+			ret, isRet := x.(*ssa.Return)
+			if !isRet {
+				return
+			}
+			n++
+			if vals := returnedValues(ret); len(vals) == 1 {
+				if m, isMC := vals[0].(*ssa.MakeClosure); isMC {
+					rmc = m
+				}
+			}
+		})
+		if n != 1 || rmc == nil {
+			return
+		}
+		args := call.Call.Args
+		subst = func(b ssa.Value) ssa.Value {
+			if al, isAl := b.(*ssa.Alloc); isAl {
+				var st *ssa.Store
+				k := 0
+				for _, r := range *al.Referrers() {
+					if sst, isSt := r.(*ssa.Store); isSt && sst.Addr == ssa.Value(al) {
+						st = sst
+						k++
+					}
+				}
+				if k != 1 {
+					return nil
+				}
+				b = st.Val
+			}
+			if prm, isPrm := b.(*ssa.Parameter); isPrm {
+				for i, q := range g.Params {
+					if q == prm && i < len(args) {
+						return args[i]
+					}
+				}
+			}
+			return nil
+		}
+		fv = rmc
+	}
 	mc, ok := fv.(*ssa.MakeClosure)
 	if !ok {
 		return
+	}
+	if subst != nil {
+		if _, isFn := mc.Fn.(*ssa.Function); !isFn || mc.Fn.(*ssa.Function).Synthetic != "" {
+			return
+		}
 	}
 	cl := mc.Fn.(*ssa.Function)
 	type captured struct {
@@ -1137,7 +1194,13 @@ func (e *ownEngine) registerHook(fn *ssa.Function, in ssa.Instruction, host stri
 		}
 	} else {
 		for i, f := range cl.FreeVars {
-			caps = append(caps, captured{f.Name(), f.Type(), mc.Bindings[i], true})
+			b := mc.Bindings[i]
+			if subst != nil {
+				if b = subst(b); b == nil {
+					return
+				}
+			}
+			caps = append(caps, captured{f.Name(), f.Type(), b, true})
 		}
 		if len(cl.Params) == 1 {
 			hostParam = cl.Params[0]
